@@ -15,6 +15,9 @@ import (
 
 func (s *Sim) checkCommitted(b *blockObs, v *View, d *Dump) {
 	h := v.Height
+	if h <= s.cfg.UpgradeHeight {
+		return
+	}
 	for _, e := range v.Errors {
 		s.violate(s.prop, "undecodable-state", "view", fmt.Sprintf("height %d: %s", h, e))
 	}
